@@ -4,7 +4,7 @@ import os
 from vf import common
 
 CATS = ['app-misc', 'dev-libs', 'sys-apps', 'virtual', 'x11-base']
-PKGS = ['foo', 'bar', 'libbaz', 'qux-tools', 'zed']
+PKGS = ['foo', 'foo-bin', 'bar', 'bar2', 'libbaz', 'qux-tools', 'zed']
 
 
 def gen_repo(rng, portable=True, with_ignored=True, odd=False):
@@ -102,6 +102,14 @@ def gen_repo(rng, portable=True, with_ignored=True, odd=False):
                     d('metadata/md5-cache/' + c)
                     for k in range(rng.randint(1, 3)):
                         f('metadata/md5-cache/%s/pkg-%d' % (c, k))
+    # hidden directories (skipped by every tool), sometimes two next to each other
+    if rng.random() < 0.25:
+        base = rng.choice([x for x in ('eclass', 'licenses', 'profiles')
+                           if any(n['p'] == x for n in nodes)] or [None])
+        if base:
+            for hd in ('.cache', '.tmp'):
+                d(base + '/' + hd)
+                f(base + '/' + hd + '/scratch')
     if with_ignored:
         for ig in ('distfiles', 'local', 'packages'):
             if rng.random() < 0.3:
